@@ -17,6 +17,7 @@ PROP = {
         'a request is "served" when the answer is neither 401 nor 403 (whatever the handler then answers: 200, 400 on the empty JSON body the probe sends, 404 for an unknown child/parent/publisher); "refused" is 401 or 403',
         'authentication itself (password hashing, session tokens, OpenID Connect) is outside C13 (C20): the model starts from the authentication result of authorizer.rs (a role or an error); POST /auth/login, POST /auth/logout and GET /auth/callback (proceed_raw) are listed as public and their answers are not compared',
         'absence of effect on refusal is observed through the API as admin: CA list, publisher list, /stats/cas, and the command history of the addressed CA, compared before and after each refused POST/DELETE',
+        'listing endpoints (GET /api/v1/cas, GET /api/v1/bulk/cas/issues) are probed first, in a state where ca1, ca2 (named by the scoped roles) and ca4 (in no role\'s map) each have a standing parent issue, so the filtered answer differs between callers; the CA set shown must equal the CAs of the admin\'s answer that the caller may read (CaRead on the entry)',
         'paths are modelled as lists of segments without trailing slash; percent-encoding and trailing-slash tolerance of PathIter are not modelled',
         'handlers whose gate is reached through macros, closures or helper functions other than the recognised Request methods are not supported by the translator: it stops with TranslateError instead of guessing',
     ],
